@@ -97,7 +97,7 @@ import re as _re
 
 _SOFT_REASON = _re.compile(
     r"^(0 site\(s\)|0 (append|restore|start|growth|accumulation|loop|static|residue|mass-comparing|MolFromSmiles)\b|no (loop|finalisation closure|growth|element dispatch|rng\.choice in|attach_other in|test `|guarded AddBond|traversal of this system|statement)|"
-    r"statement pattern .* not found|look-ahead not found|loop shape not recognised|dispatches to None|\[\(None, None\)|got (self\._|[A-Za-z_]+$)|$)"
+    r"statement pattern .* not found|look-ahead not found|loop shape not recognised|dispatches to None|\[\(None, None\)|got (self\._|[A-Za-z_]+$))"
     r"|'other:|\bother:|not found in a recognised form|cannot be (evaluated|normalised)|outside the (abstract domain|interval evaluator)|is obtained in a way the an"
 )
 _SOFT_ROLE = _re.compile(r"^present:")
